@@ -43,6 +43,8 @@ use crate::common::create_jj_commit;
 use crate::common::git_backend;
 use crate::common::git_refs;
 use crate::common::has_id;
+use crate::common::is_duplicate_commit_flake;
+use crate::common::reload_with_tick;
 use crate::common::list_refs;
 use crate::common::usizes;
 
@@ -57,7 +59,9 @@ fn refname(b: usize) -> String {
 
 /// A repository that serves many cases over the same jj-side commit graph.
 struct Env {
-    _test_repo: TestRepo,
+    test_repo: TestRepo,
+    /// counter behind the pinned commit timestamp (common::reload_with_tick)
+    tick: u64,
     repo: Arc<ReadonlyRepo>,
     git_dir: PathBuf,
     writer: RefWriter,
@@ -90,7 +94,8 @@ impl Env {
         let git_dir = git_backend(&repo).git_repo_path().to_owned();
         let writer = RefWriter::new(&git_dir)?;
         Ok(Self {
-            _test_repo: test_repo,
+            test_repo,
+            tick: 0,
             repo,
             git_dir,
             writer,
@@ -219,6 +224,11 @@ impl Case<'_> {
     /// Import in a transaction; returns (bookmarks changed per the stats,
     /// info, projection of the transaction's view)
     fn import(&mut self, commit: bool) -> Result<(Vec<usize>, Value, Value), String> {
+        if self.abandon {
+            // every import that may rewrite commits stamps them with its own second
+            self.env.tick += 1;
+            self.env.repo = reload_with_tick(&self.env.test_repo, self.env.tick);
+        }
         let mut tx = self.env.repo.start_transaction();
         let opts = import_options(self.abandon);
         let stats = git::import_refs(tx.repo_mut(), &opts)
@@ -362,7 +372,7 @@ impl Runner {
         Ok(())
     }
 
-    fn run_case(&mut self, out: &mut Out, spec: &Value, src: &str) -> Result<(), String> {
+    fn run_case(&mut self, out: &mut Vec<Value>, spec: &Value, src: &str) -> Result<(), String> {
         self.case_no += 1;
         let case_no = self.case_no;
         let par: Vec<Vec<usize>> = spec["par"].as_array().ok_or("case without par")?.iter().map(usizes).collect();
@@ -375,7 +385,7 @@ impl Runner {
         let env = self.env_for(&par)?;
         let mut case = env.start(&gitonly, nb, abandon)?;
         let init = case.project()?;
-        out.emit(&json!({"op": "reset", "case": case_no, "par": par, "gitonly": gitonly, "nb": nb,
+        out.push(json!({"op": "reset", "case": case_no, "par": par, "gitonly": gitonly, "nb": nb,
                          "abandon": abandon, "src": src, "post": init}));
         for s in spec["steps"].as_array().ok_or("case without steps")? {
             let mut rec = case.step(s);
@@ -383,7 +393,7 @@ impl Runner {
                 rec["match"] = json!(rec.get("post").is_some_and(|p| same_state(exp, p)));
             }
             let stop = matches!(rec["op"].as_str(), Some("error") | Some("panic") | Some("harness_error"));
-            out.emit(&rec);
+            out.push(rec);
             if stop {
                 self.env = None; // do not reuse a repository after a failure
                 break;
@@ -394,7 +404,7 @@ impl Runner {
 
     /// the random driver (I->S): chain 1-2-3, fork 4 from 1, 5 child of 4,
     /// optionally with 4/5 existing only on the Git side
-    fn run_random(&mut self, out: &mut Out, rng: &mut Rng, max_steps: usize, nb: usize) -> Result<(), String> {
+    fn run_random(&mut self, out: &mut Vec<Value>, rng: &mut Rng, max_steps: usize, nb: usize) -> Result<(), String> {
         self.case_no += 1;
         let case_no = self.case_no;
         let par = vec![vec![], vec![1], vec![2], vec![1], vec![4]];
@@ -409,7 +419,7 @@ impl Runner {
         let env = self.env_for(&par)?;
         let mut case = env.start(&gitonly, nb, abandon)?;
         let init = case.project()?;
-        out.emit(&json!({"op": "reset", "case": case_no, "par": par, "gitonly": gitonly, "nb": nb,
+        out.push(json!({"op": "reset", "case": case_no, "par": par, "gitonly": gitonly, "nb": nb,
                          "abandon": abandon, "src": "rnd", "post": init}));
         let mut known: Vec<usize> = usizes(&init["known"]);
         let mut gitv: Vec<usize> = usizes(&init["git"]);
@@ -431,7 +441,7 @@ impl Runner {
                 known = usizes(&p["known"]);
                 gitv = usizes(&p["git"]);
             }
-            out.emit(&rec);
+            out.push(rec);
             if stop {
                 failed = true;
                 break;
@@ -453,7 +463,18 @@ pub fn run(opts: &Opts) -> Result<(), String> {
         let (shard, of) = (opts.usize("shard", 0), opts.usize("of", 1));
         for (i, beh) in read_ndjson(path)?.iter().enumerate() {
             if i % of == shard {
-                runner.run_case(&mut out, beh, "tlc")?;
+                let mut buf = vec![];
+                runner.run_case(&mut buf, beh, "tlc")?;
+                if is_duplicate_commit_flake(&buf) {
+                    // artefact of replay speed: once more in a fresh repository; reported only if it repeats
+                    runner.env = None;
+                    runner.case_no -= 1;
+                    buf.clear();
+                    runner.run_case(&mut buf, beh, "tlc")?;
+                }
+                for r in &buf {
+                    out.emit(r);
+                }
             }
         }
     }
@@ -463,7 +484,19 @@ pub fn run(opts: &Opts) -> Result<(), String> {
         let max_steps = opts.usize("maxsteps", 10);
         let nb = opts.usize("nb", 3);
         for _ in 0..n {
-            runner.run_random(&mut out, &mut rng, max_steps, nb)?;
+            let saved = rng.clone();
+            let mut buf = vec![];
+            runner.run_random(&mut buf, &mut rng, max_steps, nb)?;
+            if is_duplicate_commit_flake(&buf) {
+                runner.env = None;
+                runner.case_no -= 1;
+                rng = saved;
+                buf.clear();
+                runner.run_random(&mut buf, &mut rng, max_steps, nb)?;
+            }
+            for r in &buf {
+                out.emit(r);
+            }
         }
     }
     runner.final_crosscheck()?;
